@@ -314,7 +314,11 @@ class PathToken(TokenT):
         it = iter(self.path)
         root = next(it)
         if isinstance(root, str):
-            if RE_PROPERTY.fullmatch(root) and (nested or root not in _RESERVED_WORDS):
+            if (
+                RE_PROPERTY.fullmatch(root)
+                and (nested or root not in _RESERVED_WORDS)
+                and not any(ch.isspace() for ch in root)
+            ):
                 buf = [root]
             else:
                 buf = [f"[{_quote_escaped(root)}]"]
